@@ -3,16 +3,17 @@
    mode "parse": the parser automaton as a state machine on EVERY text of the universe
                  Texts (all malformed escapes, \DD at the end, \256, \999, a digit after a
                  complete escape, \. and \@ as whole labels ...), one action per input class;
-   mode "write": for every name of NamesA, the round-trip law through ToText / ParseText. *)
+   mode "write": for every name of TextNames = NamesA + CtlNames, the round-trip law through ToText / ParseText. *)
 EXTENDS NameText, NameUniverse, TLC
 
 CONSTANTS Modes
 VARIABLES mode, text, name, ps
 vars == <<mode, text, name, ps>>
 
+Lead(n) == IF n = <<>> \/ n[1] = <<>> THEN <<>> ELSE <<n[1][1]>>
 Init == /\ mode \in Modes
         /\ \/ mode = "parse" /\ text \in Texts /\ name = <<>> /\ ps = PInit
-           \/ mode = "write" /\ text = <<>> /\ name \in {<<>>} \cup T1(C16) /\ ps = PInit
+           \/ mode = "write" /\ text = <<>> /\ name \in {Lead(n) : n \in TextNames} /\ ps = PInit
 
 Running == mode = "parse" /\ ps.st = "run"
 Cur == text[ps.i]
@@ -25,9 +26,8 @@ EscLiteral == Act("EscLiteral")
 EscBad     == Act("EscBad")
 End        == Running /\ ps.i > Len(text) /\ ps' = PEnd(ps) /\ UNCHANGED <<mode, text, name>>
 (* mode "write": first the leading octet, then the name, so that TLC's workers share the enumeration *)
-Lead(n) == IF n = <<>> \/ n[1] = <<>> THEN <<>> ELSE <<n[1][1]>>
 Pick == /\ mode = "write" /\ text = <<>> /\ UNCHANGED <<mode, ps>>
-        /\ name' \in {n \in NamesA : Lead(n) = name}
+        /\ name' \in {n \in TextNames : Lead(n) = name}
         /\ text' = ToText(name')
 Next == Pick \/ Ordinary \/ DotA \/ Backslash \/ EscDigit \/ EscLiteral \/ EscBad \/ End
 Spec == Init /\ [][Next]_vars
@@ -60,6 +60,15 @@ OmitRoundTrip == Written /\ IsAbs(name) /\ name # Root =>
                      ParseText(ToTextOmit(name), Some(Root)) = Ok(name)
 TokRoundTrip == Written => /\ TokName(text, NoOrigin, FALSE, NoOrigin) = Ok(name)
                            /\ (IsAbs(name) => TokName(text, Some(Root), TRUE, NoOrigin) = Ok(Relativize(name, Root)))
+(* RFC 1035 5.1 octet by octet: a one-octet label is written as itself iff it is a printable
+   non-special character, as backslash + itself iff special, as backslash + 3 decimal digits otherwise *)
+EscapifyExact ==
+    (Written /\ Len(name) = 1 /\ Len(name[1]) = 1) =>
+        LET oc == name[1][1]
+            d3 == <<BackSl, 48 + (oc \div 100), 48 + ((oc \div 10) % 10), 48 + (oc % 10)>>
+        IN  IF oc \in Special THEN text = <<BackSl, oc>>
+            ELSE IF oc >= 33 /\ oc <= 126 THEN text = <<oc>>
+            ELSE text = d3
 (* the text never contains a raw special: every octet of it is printable ASCII, and a
    special character only follows a backslash *)
 TextIsPrintable == Written => \A k \in 1..Len(text) : /\ text[k] > 32 /\ text[k] < 127
